@@ -3,7 +3,7 @@ use verif_harness::gen::*;
 use verif_harness::pipeline::*;
 use verif_harness::*;
 fn main() {
-    silence_panics();
+    if std::env::var("LOUD").is_err() { silence_panics(); }
     let args = parse_args();
     let mut rng = Rng::new(args.seed);
     let (mut n, mut schema_bad, mut doc_bad, mut panics) = (0, 0, 0, 0);
